@@ -51,6 +51,25 @@ def run(ctx):
         raise Inconclusive("the paged-revocation family shrank to %d behaviours" % len(paged))
     rnd.shuffle(paged)
     paged = paged[:300 if q else len(paged)]
+    # the directed family "paged grant" (GrantSpec): a second access change (another channel granted, swap, revoke) lands between two
+    # pages of a grant back-fill, every page boundary, limits {1,2}; all of it is replayed
+    r = model_check(ctx, SPEC, "MC_Revocation", "MC_Revocation_pgrant.cfg", timeout=3000, coverage=False)
+    pgrant = printed(r, "BEH")
+    ctx.cov["paged_grant_family"] = len(pgrant)
+    if len(pgrant) < 100:
+        raise Inconclusive("the paged-grant family shrank to %d behaviours" % len(pgrant))
+    # the paged-revocation family under the DEFAULT collection's rule for a role created again after deletion (it keeps its channel
+    # history: KeepRoleHist = TRUE, the named deviation recreated-role-loses-history does not exist there); its behaviours with a role
+    # deletion are replayed on a default-collection database (quick: all with a re-creation + a seeded sample of the others)
+    r = model_check(ctx, SPEC, "MC_Revocation", "MC_Revocation_paged_dc.cfg", timeout=3000, coverage=False)
+    dcall = [b for b in printed(r, "BEH") if any(st["a"] == "RoleDel" for st in b)]
+    recreated = lambda b: any(st["a"] == "AdminPut" and st["p"].startswith("r") for st in b[[x["a"] for x in b].index("RoleDel"):])
+    dc = [b for b in dcall if recreated(b)]
+    rest = [b for b in dcall if not recreated(b)]
+    rnd.shuffle(rest)
+    dc += rest[:50 if q else len(rest)]
+    if len(dc) < 60:
+        raise Inconclusive("the default-collection family shrank to %d behaviours" % len(dc))
     ctx.cov["exhaustive"] = True
 
     # 2. more behaviours, generated concurrently: all action sequences of a tiny instance (seeded sample) and seeded TLC
@@ -66,17 +85,21 @@ def run(ctx):
     sim = pick_sim(gen[1], rnd, 100 if q else 1000)
     sim2 = pick_sim(gen[2], rnd, 150 if q else 1200)
     jobs = [{"id": i, "kind": k, "steps": b} for i, (k, b) in enumerate(
-        cands + nontriv + [("paged", b) for b in paged] + [("beh", b) for b in small] + [("sim", b) for b in sim] + [("sim2", b) for b in sim2])]
+        cands + nontriv + [("paged", b) for b in paged] + [("pgrant", b) for b in pgrant] + [("beh", b) for b in small] + [("sim", b) for b in sim] + [("sim2", b) for b in sim2])]
     for k in range(0, len(jobs), CHUNK):
         replay_and_validate(ctx, jobs[k:k + CHUNK], "c%d" % (k // CHUNK))
+    dcjobs = [{"id": len(jobs) + i, "kind": "paged-dc", "steps": b} for i, b in enumerate(dc)]
+    replay_and_validate(ctx, dcjobs, "dc", dc=True)
 
     ctx.cov["rule"] = ("behaviours = model candidates (shortest first) + a seeded sample of the model checker's distinct states that end in a "
                        "completed pull with a revoked / removed / deleted / back-fill row (4 bounded instances: admin grants + document moves; "
                        "one role incl. deletion and re-creation; granting documents; paging with other actions between pages) + a seeded sample "
                        "of ALL action sequences of length 4 over {u1, d1, A, B} + the directed, exhaustively generated family 'paged revocation' "
-                       "(576 behaviours: 3 documents in the revoked channel, one possibly also in a kept channel, access through a role / "
+                       "(624 behaviours: 3 documents in the revoked channel, one possibly also in a kept channel, access through a role / "
                        "directly / both, every order of role-loses-channel / user-loses-role / user-loses-channel / role-deleted, limits {0,1,2}, "
-                       "every page boundary; quick replays a seeded 300, thorough all) + seeded TLC simulations: length 12 over 2 users / 2 roles / "
+                       "every page boundary; quick replays a seeded 300, thorough all; its role-deletion part again on a default-collection "
+                       "database) + the directed family 'paged grant' (132 behaviours: a second grant / swap / revoke between two pages of a grant "
+                       "back-fill, every page boundary, all replayed) + seeded TLC simulations: length 12 over 2 users / 2 roles / "
                        "3 channels / 3 documents (admin grants to users and roles, role assignment by admin and by sync function, role deletion "
                        "and re-creation, channel grants by granting documents, document moves / deletes / resurrection, principal reloads at "
                        "arbitrary points, pulls with limits 0/1/2 and other actions between the pages of a pull) and length 10 over 1 user / "
@@ -90,7 +113,8 @@ def run(ctx):
         "the binding loads the puller and every role before a page, so role documents are recomputed at page time rather than lazily inside the "
         "request; extra reloads at arbitrary points are explored (Load)",
         "grant-history pruning (ClientPartitionWindow = 30 days, max entries per grant) and document channel-history compaction "
-        "(5 entries per channel) are outside the bounds; one named collection (history of a re-created role is per collection)",
+        "(5 entries per channel) are outside the bounds; one named collection, and a default-collection database for the role "
+        "deletion / re-creation family (history of a re-created role is kept for the default collection only)",
         "the client resumes from the STRING form of the last sequence received (also that of the _user pseudo-row); LowSeq is always 0 "
         "(no skipped sequences); no star channel, no conflicting revisions, the pulling user is never deleted",
         "Rosmar + views stand for the channel / access queries; the test database pages channel queries by 2 (ChannelQueryLimit)",
@@ -166,12 +190,15 @@ def pick_sim(sim, rnd, cap):
     return res[:cap]
 
 
-def run_harness(ctx, jobs, tag):
+def run_harness(ctx, jobs, tag, dc=False):
     bf = os.path.join(ctx.scratch, "c13-%s-beh.json" % tag)
     tr = os.path.join(ctx.scratch, "c13-%s.ndjson" % tag)
     write_json(bf, [{"id": j["id"], "steps": j["steps"]} for j in jobs])
+    env = {"VERIF_BEH": bf, "VERIF_TRACE_OUT": tr, "VERIF_C13_QLIMIT": QUERY_PAGE}
+    if dc:
+        env["SG_TEST_USE_DEFAULT_COLLECTION"] = "true"      # scope / collection _default
     for attempt in (1, 2):      # an infrastructure failure (change cache stall under load, ...) is retried once, then inconclusive
-        rc, out = go_test(ctx, "db", "^TestVerif_C13_Revocation$", HARNESS, env={"VERIF_BEH": bf, "VERIF_TRACE_OUT": tr, "VERIF_C13_QLIMIT": QUERY_PAGE}, timeout=3600)
+        rc, out = go_test(ctx, "db", "^TestVerif_C13_Revocation$", HARNESS, env=env, timeout=3600)
         if rc == 0 and os.path.exists(tr):
             return tr, read_ndjson(tr)
         ctx.notes.append("harness run %s attempt %d failed: %s" % (tag, attempt, harness_failure(out)[:400]))
@@ -231,9 +258,9 @@ def locate(rows, line):
     return bid, (rows[line - 1] if 0 < line <= len(rows) else {})
 
 
-def enumerate_violations(ctx, tr, tag):
+def enumerate_violations(ctx, tr, tag, sfx=""):
     """every violating position of the trace, with TLC's diagnosis (which predicate, which documents, named deviation)"""
-    r = tlc(ctx, SPEC, "Trace_Revocation", "Trace_Revocation_PA.cfg", workers=1, env={"VERIF_TRACE": tr}, timeout=1800, dfs=True,
+    r = tlc(ctx, SPEC, "Trace_Revocation", "Trace_Revocation_PA%s.cfg" % sfx, workers=1, env={"VERIF_TRACE": tr}, timeout=1800, dfs=True,
             tag=tag + "-PA", allow_violation=True)
     if r.error_text:
         raise Inconclusive("TLC error enumerating violations of %s: %s" % (tr, r.error_text))
@@ -285,17 +312,18 @@ def report(ctx, v, rows, jobs, per):
             {"behaviour": job, "invariant": inv, "document": d, "diagnosis": v, "real_trace": slim(per.get(bid, []))})
 
 
-def replay_and_validate(ctx, jobs, tag):
-    tr, rows = run_harness(ctx, jobs, tag)
+def replay_and_validate(ctx, jobs, tag, dc=False):
+    sfx = "_dc" if dc else ""          # trace cfgs with KeepRoleHist = TRUE
+    tr, rows = run_harness(ctx, jobs, tag, dc)
     per = split_rows(rows)
     ctx.cov["evaluations"] += len(jobs)
     ctx.cov["trace_lines"] = ctx.cov.get("trace_lines", 0) + len(rows)
     stats(ctx, per, jobs)
     mid = jobs[len(jobs) // 2]
     ctx.sample({"behaviour": mid, "real_trace_tail": slim(per[mid["id"]][-2:])}, cap=2)
-    vp = validate(ctx, SPEC, "Trace_Revocation", "Trace_Revocation_P.cfg", tr, timeout=3000, tag=tag + "-P")
+    vp = validate(ctx, SPEC, "Trace_Revocation", "Trace_Revocation_P%s.cfg" % sfx, tr, timeout=3000, tag=tag + "-P")
     if vp.inv:
-        viols = enumerate_violations(ctx, tr, tag)
+        viols = enumerate_violations(ctx, tr, tag, sfx)
         if not viols:
             raise Inconclusive("pass P reported %s at line %s but the enumeration found nothing" % (vp.inv, vp.line))
         for v in viols:
@@ -304,7 +332,7 @@ def replay_and_validate(ctx, jobs, tag):
         ctx.cov["candidates_reproduced"] = ctx.cov.get("candidates_reproduced", 0) + ncand
     elif not vp.accepted:
         raise Inconclusive("pass P stopped at line %s of %s (trace shape not accepted)\n%s" % (vp.line, vp.total, vp.out[-1500:]))
-    vc = validate(ctx, SPEC, "Trace_Revocation", "Trace_Revocation_C.cfg", tr, timeout=3000, tag=tag + "-C")
+    vc = validate(ctx, SPEC, "Trace_Revocation", "Trace_Revocation_C%s.cfg" % sfx, tr, timeout=3000, tag=tag + "-C")
     if vc.inv or not vc.accepted:
         ctx.cov["nonconformance"] += 1
         line = vc.line or 0
